@@ -310,7 +310,8 @@ def run_case(seed, tier, rec, st):
                 else:
                     rec.violation(f"encode:{rname}:differs-from-member-encoding:{type(v).__name__}-rendered-as-{type(out).__name__}", {"type": tast.render(t), "value": common.short(v),
                                   "observed": common.short(out, 300), "expected": common.short(plain(exp), 300), "family": fam.to_json()},
-                                  dict(facts0, encoded_only_basic=only_basic(out), **str_packer_fact(ref, t, v)))
+                                  dict(facts0, encoded_only_basic=only_basic(out), **str_packer_fact(ref, t, v),
+                                       equals_blind_encoding_by_earlier_member=blind_earlier_encoding(fam, ref, t, v, out)))
         # ---------------- decode: valid docs, cross-type scalars, junk
         inputs = list(valid_docs)
         inputs += [True, False, 0, 1, 1.0, -2.5, "12", "1.5", "a", "", None, "2020-01-02", "true", [], {}, [1], ["a"], {"a": 1}, b"x"]
@@ -383,6 +384,37 @@ def explained_by(fam, t, d, got):
 
 
 BASIC_KINDS = ("int", "float", "bool", "str", "none")
+
+
+def blind_earlier_encoding(fam, ref, t, v, out):
+    """is the observed document exactly what finding F20's mechanism predicts - the rendering of the value by the FIRST member
+    declared before its own one whose packer does not raise (the library's own packer of that member, applied blindly)?
+    None when the union is not the outermost node (the position is then not isolated)."""
+    from mashumaro.codecs.basic import BasicEncoder
+    s = tast.strip(t)
+    if s[0] == "tv":
+        df = fam.defs[s[1]]
+        if not df.get("constraints"):
+            return None
+        s = ("union", tuple(df["constraints"]))
+    if not (s[0] == "union" or (s[0] == "opt" and tast.strip(s[1])[0] == "union")):
+        return None
+    try:
+        ms = ref.union_members(s)
+        owner = ref.member_of(ms, v)
+        if owner is None:
+            return None
+        for m in ms[:ms.index(owner)]:
+            if tast.strip(m)[0] in BASIC_KINDS:
+                continue
+            try:
+                blind = BasicEncoder(common.eval_type(fam, m)).encode(v)
+            except Exception:
+                continue
+            return type(blind) is type(out) and blind == out
+        return False
+    except Exception:
+        return None
 
 
 def str_packer_fact(ref, t, v):
